@@ -31,6 +31,11 @@ func init() {
 		skelTarget{Name: "C08.loadExistedObjects", File: "pkg/kube_events_manager/resource_informer.go", Recv: "resourceInformer", Func: "loadExistedObjects",
 			Fields: []string{"cachedObjects", "ResourceId"},
 			Calls:  []string{"applyFilter", "RemoveFullObject", "resourceId", "Sprintf", "Sprint", "GetKind", "GetName", "GetNamespace", "List"}},
+		// jq.run: the text of the filter is parsed by gojq.Parse on every call and that very query is
+		// run — no table of parsed programs, no other helper between the text and the program (model:
+		// `parseEach`; `memoParse` is the shape that is NOT in the code).
+		skelTarget{Name: "C08.jq.run", File: "pkg/filter/jq/apply.go", Recv: "", Func: "run",
+			Calls: []string{"Parse", "parse", "Compile", "Load", "Store", "LoadOrStore", "Get", "Run", "RunWithContext", "deepCopy", "Next"}},
 	)
 }
 
